@@ -112,6 +112,7 @@ func init() {
 		return nil
 	})
 	reg("Reach", func(fr *frame, a []value) value {
+		fr.i.p.checkFeasible("Reach " + a[0].(string))
 		fr.i.p.res.Reached[a[0].(string)] = true
 		return nil
 	})
